@@ -172,7 +172,7 @@ func (c *c10Fz) after() string { return fmt.Sprint(c.g.Ints(0, 0, 1, 2, 3, 5)) }
 
 // an integer, small or extreme
 func (c *c10Fz) num() string {
-	return c.g.Str("0", "1", "-1", "2", "3", "5", "-2", "-5", "7", "10", "100", "-100", "2**31", "2**62", "2**63", "2**63-1", "-2**63", "-2**63-1", "2**64", "-2**64", "10**30", "-10**30", "None", "True")
+	return c.g.Str("0", "1", "-1", "2", "3", "5", "-2", "-5", "7", "10", "100", "-100", "2**62", "2**63", "2**63-1", "-2**63", "-2**63-1", "2**64", "-2**64", "10**30", "-10**30", "None", "True")
 }
 
 func (c *c10Fz) small() string {
